@@ -20,6 +20,12 @@ about `step` over to the model with the open path, and `C17_locking_fapl_refuses
 the two shape conditions are not idle (a lower library-version bound ≥ 1.10, or a file created beside the named
 path, lose the flushed state in the model exactly as observed on libhdf5).
 
+Several `File` objects on one path inside the writer process (`Pure/FlushMulti.lean`: one library file structure and
+cache shared by all of them): `C17_multi_flush_durable` / `C17_multi_close_durable` — the regenerated `flush` / `close`
+body issued on ANY open object, others staying open, then any tail that writes nothing new, then the kill — and
+`C17_multi_unflushed_loses` (a close that releases its object without flushing, a flush that does not reach
+`H5Fflush`: the written state is lost).
+
 What the theorems carry: the *protocol* (what nixio must ask of h5py, in which order, for every history of
 API calls and every write-back behaviour of the library, over any number of kill / reopen cycles).
 What they cannot carry: that libhdf5's `H5Fflush` and the operating system honour the request — the model's
